@@ -237,6 +237,13 @@ class Constant(DataclassHideDefault):
             return False
         return constant_key(self.constant) == constant_key(__o.constant)
 
+    def __hash__(self) -> int:
+        # Hash through the same key as __eq__: the field hash would differ between
+        # equal constants holding distinct nan objects (hash(nan) is by identity on 3.10+)
+        from ._constants import constant_key
+
+        return hash((constant_key(self.constant), self._index_override))
+
 
 @dataclass(frozen=True)
 class Freevar(DataclassHideDefault):
